@@ -128,7 +128,7 @@ static void run_sort(Ctx& ctx, bool T) {
         std::vector<int> p((size_t)n);
         for (int i = 0; i < n; ++i) p[(size_t)i] = i;
         do {
-            for (int m = 0; m < NMAP; ++m)
+            for (int m = 0; m < (n >= 10 ? 6 : NMAP); ++m)   // the deepest level (n = 10) without the five unit maps (cost)
                 if (ctx.take("sort.perm", P().kv("n", n).kv("perm", digits(p)).kv("map", MAPN[m]))) {
                     std::vector<double> v;
                     for (int r : p) v.push_back(vmap(m, r, rank_val(r)));
@@ -245,7 +245,7 @@ static void run_medfilt(Ctx& ctx, bool T) {
                 std::vector<int> s((size_t)k, 0);
                 const auto frs = framings3(k);
                 while (true) {
-                    for (int m = 0; m < NMAP; ++m)
+                    for (int m = 0; m < (k >= 10 ? 6 : NMAP); ++m)   // the deepest level (k = 10) without the five unit maps (cost)
                     if (ctx.take("medfilt.ternary", P().kv("order", order).kv("init", (int)init).kv("seq", digits(s)).kv("map", MAPN[m]))) {
                         std::vector<double> x;
                         for (int r : s) x.push_back(vmap(m, r, r));
@@ -267,7 +267,7 @@ static void run_medfilt(Ctx& ctx, bool T) {
                 std::vector<int> s((size_t)k, 0);
                 const auto frs = framings3(k);
                 while (true) {
-                    for (int m = 0; m < NMAP; ++m)
+                    for (int m = 0; m < (k >= 8 ? 6 : NMAP); ++m)   // the deepest level (k = 8) without the five unit maps (cost)
                         if (ctx.take("medfilt.quaternary", P().kv("order", order).kv("init", (int)init).kv("seq", digits(s)).kv("map", MAPN[m]))) {
                             std::vector<double> x;
                             int nz = 0;
